@@ -4,6 +4,7 @@ Parameterized objects.
 """
 
 import json
+from collections.abc import Container
 import textwrap
 
 class UnserializableException(Exception):
@@ -80,8 +81,8 @@ class JSONSerialization(Serialization):
     @classmethod
     def schema(cls, pobj, safe=False, subset=None):
         schema = {}
-        if subset is not None:
-            subset = list(subset)    # (may be an iterable that can be consumed once)
+        if subset is not None and not isinstance(subset, Container):
+            subset = list(subset)    # (an iterable that can be consumed once)
         for name, p in pobj.param.objects('existing').items():
             if subset is not None and name not in subset:
                 continue
@@ -95,8 +96,8 @@ class JSONSerialization(Serialization):
     @classmethod
     def serialize_parameters(cls, pobj, subset=None):
         components = {}
-        if subset is not None:
-            subset = list(subset)    # (may be an iterable that can be consumed once)
+        if subset is not None and not isinstance(subset, Container):
+            subset = list(subset)    # (an iterable that can be consumed once)
         for name, p in pobj.param.objects('existing').items():
             if subset is not None and name not in subset:
                 continue
@@ -108,8 +109,8 @@ class JSONSerialization(Serialization):
     def deserialize_parameters(cls, pobj, serialization, subset=None):
         deserialized = cls.loads(serialization)
         components = {}
-        if subset is not None:
-            subset = list(subset)    # (may be an iterable that can be consumed once)
+        if subset is not None and not isinstance(subset, Container):
+            subset = list(subset)    # (an iterable that can be consumed once)
         for name, value in deserialized.items():
             if subset is not None and name not in subset:
                 continue
